@@ -17,6 +17,8 @@ OBLIGATIONS = [
     "NanoVerif.C04.glyphName_g_family_separated",
     "NanoVerif.C04.glyphName_prefix_rule",
     "NanoVerif.C04.csv_leading_space",
+    "NanoVerif.C04.shape_own_sequence",
+    "NanoVerif.C04.shortest_first_breaks",
     "NanoVerif.C01.advance_rule",
 ]
 DESIGN_REF = "DESIGN.md §5 C04"
@@ -165,10 +167,60 @@ def gen_font_case(rng, fmt, force_tri=None):
     return {"id": f"c04:{fmt}:{rng.getrandbits(40)}", "seed": 0, "fmt": fmt, "svgs": svgs, "config": cfg, "codepoints": [list(s) for s in seqs], "vb": [vbw, 100]}
 
 
+def check_shape_model(ctx, res, case, font):
+    """Tie for Model/Shape.lean + the hypotheses of `shape_own_sequence` on the real font: the compiled LigatureSets list longer
+    ligatures first, no two ligatures have the same sequence; the Lean shaper and harness/shaper.py agree on every source sequence
+    and on concatenations of them."""
+    sets = shaper._ligature_lookups(font)
+    if not sets:
+        return
+    gid = font.getGlyphID
+    rules = []
+    for subs in sets[:1]:
+        for ligs in subs:
+            for first, ll in ligs.items():
+                lens = [len(l.Component) for l in ll]
+                if lens != sorted(lens, reverse=True):
+                    res.add_tie_break("hypothesis LongestFirst of C04.shape_own_sequence on a real LigatureSet", {"case": case["id"], "first": first}, "descending", lens)
+                for l in ll:
+                    rules.append(([gid(first)] + [gid(c) for c in l.Component], gid(l.LigGlyph)))
+    if len({tuple(r[0]) for r in rules}) != len(rules):
+        res.add_tie_break("hypothesis of distinct sequences (C04.shape_own_sequence) on a real font", {"case": case["id"]}, "distinct", "duplicate")
+    rules.sort(key=lambda r: -len(r[0]))   # stable: order inside each set is kept; sets with different first glyphs never compete
+    cmap = font.getBestCmap()
+    seqs = [tuple(c) for c in case["codepoints"] if all(cp in cmap for cp in c)]
+    inputs = [list(s) for s in seqs]
+    for _ in range(4):
+        if len(seqs) >= 2:
+            a, b = ctx.rng.sample(seqs, 2)
+            inputs.append(list(a) + list(b))
+    if not inputs:
+        return
+    real = [shaper.shape(font, i) for i in inputs]
+    op = {"op": "shape-lig", "rules": [[[str(g) for g in r[0]], str(r[1])] for r in rules],
+          "inputs": [[str(gid(cmap[cp])) for cp in i] for i in inputs]}
+    want = [[str(gid(g)) for g in r] for r in real]
+    res.stat("shape-model:inputs", len(inputs))
+    pending = getattr(ctx, "_shape_pending", None)
+    if pending is None:
+        finish_shape_model(ctx, res, [(op, want, case["id"], inputs)])
+    else:
+        pending.append((op, want, case["id"], inputs))
+
+
+def finish_shape_model(ctx, res, pending):
+    if not pending:
+        return
+    for (op, want, cid, inputs), m in zip(pending, ctx.driver.run([p_[0] for p_ in pending])):
+        if m.get("out") != want:
+            res.add_tie_break("Model/Shape.lean shapeLig vs harness shaper on a real GSUB", {"case": cid, "inputs": inputs}, m, want)
+
+
 def check_font(ctx, res, case, out, pngs=None):
     font = out["font"]
     cfg = out["config"]
     fmt = case["fmt"]
+    check_shape_model(ctx, res, case, font)
     order = font.getGlyphOrder()
     cmap = font.getBestCmap()
     site = lambda s: {"site": "c04-" + s, "case": case["id"]}
@@ -247,6 +299,7 @@ def check_font(ctx, res, case, out, pngs=None):
 
 
 def suite_fonts(ctx, res, n):
+    ctx._shape_pending = []
     plan = [(ALL_FORMATS[k % len(ALL_FORMATS)], None) for k in range(n)]
     # OT-SVG with shared (square) and unshared (triangle) sources alternating and reuse on: the regrouping moves glyphs past one another
     plan += [(f, True) for f in ("picosvg", "picosvgz")] * max(1, n // 26)
@@ -268,6 +321,8 @@ def suite_fonts(ctx, res, n):
             continue
         res.stat("build:ok:" + fmt)
         check_font(ctx, res, case, out, pngs)
+    finish_shape_model(ctx, res, ctx._shape_pending)
+    ctx._shape_pending = None
     res.sample({"suite": "fonts", "case_id": case["id"], "codepoints": case["codepoints"], "config": case["config"]})
 
 
